@@ -19,7 +19,7 @@ from ..space import Alt, Const, Map, Prod
 
 ID = "C12"
 LEVEL = "fault_enumeration"
-RULE = ("full product: script file(s) from a 16-name alphabet (space % # ? + ; & ' \" <> %41 non-ASCII leading-dot "
+RULE = ("full product: script file(s) from a 17-name alphabet (incl. a scheme-like 'ui:main.js') (space % # ? + ; & ' \" <> %41 non-ASCII leading-dot "
         "nested-dir plain; singles and adjacent pairs) x stylesheet {none, one} x all_files x source "
         "{directory, importable package, URL with/without trailing slash, none} x libdir {'lib', None, "
         "'x/y'} x include_version x pre-existing target {absent, stale file, stale sub-directory} x "
@@ -33,7 +33,7 @@ ASSUMPTIONS = [
 ]
 
 FILES = ["plain.js", "sp ace.js", "pct%.js", "hash#.js", "q?.js", "plus+.js", "semi;.js", "amp&.js",
-         "apos'.js", 'quot".js', "lt<gt>.js", "%41.js", "é中.js", "sub/dir/n.js", ".dot.js", ".d.d/..in.js"]
+         "apos'.js", 'quot".js', "lt<gt>.js", "%41.js", "é中.js", "sub/dir/n.js", ".dot.js", ".d.d/..in.js", "ui:main.js"]
 STYLE = "st yle&.css"
 EXTRA = ["extra.txt", "assets/img.bin", ".hidden.css", ".dotdir/inner.js"]
 _FX = {}
@@ -106,11 +106,13 @@ IDENT = {"safe": ("my.dep_1", "1.2.3"), "spaced": ("my widget,x", "1.0+b.5"), "s
 
 def make_dep(scripts, style, all_files, source_kind, missing=(), ident="safe"):
     from htmltools import HTMLDependency
+    slash = "/" if source_kind in ("dir/", "package/") else ""       # the sub-directory spelled with a trailing slash
+    source_kind = source_kind.rstrip("/") if slash else source_kind
     if source_kind == "dir":
-        source = {"subdir": src_dir_for("dir", missing)}
+        source = {"subdir": src_dir_for("dir", missing) + slash}
     elif source_kind == "package":
         sub = os.path.basename(src_dir_for("package", missing))
-        source = {"package": _FX["pkg"], "subdir": sub}
+        source = {"package": _FX["pkg"], "subdir": sub + slash}
     elif source_kind == "url/":
         source = {"href": "https://cdn.example/base/"}
     elif source_kind == "url":
@@ -142,7 +144,7 @@ def fn(case):
     try:
         dep = make_dep(scripts, style, all_files, source_kind, missing, ident)
         info = {"name": dname, "version": dver, "source": dep.source}
-        local = source_kind in ("dir", "package")
+        local = source_kind in ("dir", "package", "dir/", "package/")
         destdir = os.path.join(tdir, libdir) if libdir else tdir
         target = os.path.join(destdir, dname + ("-" + dver if incv else ""))
         if stale == "file":
@@ -187,7 +189,29 @@ def fn(case):
             return (True, "raised", viols, 1)
         if caller != "copy_to" and ret != file:
             viols.append(("return-value", f"save_html returned {ret!r}, not the path written", {}))
+        def check_tree(when):
+            src_root_ = None if not local else dep.source_path_map()["source"]
+            if local:
+                if all_files:
+                    if listing(target) != listing(src_root_):
+                        viols.append(("all_files:tree-differs" + when, "target directory is not a copy of the whole source directory",
+                                      {"target": [x if isinstance(x, str) else x[0] for x in listing(target)]}))
+                else:
+                    got = [x[0] for x in listing(target) if not isinstance(x, str)]
+                    if sorted(got) != sorted(set(listed)):
+                        viols.append(("copied-set" + when, "target directory does not hold exactly the listed files "
+                                      "(stale contents must be gone)", {"observed": got, "expected": sorted(set(listed))}))
+                    for rel in listed:
+                        p = os.path.join(target, rel)
+                        if os.path.isfile(p) and open(p, "rb").read() != open(os.path.join(src_root_, rel), "rb").read():
+                            viols.append(("copied-file-differs" + when, f"{rel!r} differs from its source", {}))
+            else:
+                after = [x for x in listing(tdir) if (x if isinstance(x, str) else x[0]) != "index.html"]
+                if after != before:
+                    viols.append(("nonlocal-copied-something" + when, "URL/source-less dependency changed the output directory",
+                                  {"after": [a if isinstance(a, str) else a[0] for a in after]}))
         if local and stale == "dir":
+            check_tree(":first-save")      # (the second save below must not hide what the first one left)
             # history: the same dependency is copied to the same destination a second time in this
             # process, after something stale has appeared there: it must be cleared again
             os.makedirs(os.path.join(target, "late-stale"), exist_ok=True)
@@ -227,7 +251,7 @@ def fn(case):
                     for k, v in t[2]:
                         if (t[1], k) in (("script", "src"), ("link", "href")):
                             urls.append(_html.unescape(v))
-            if source_kind in ("dir", "package"):
+            if local:
                 base = dname + ("-" + dver if incv else "")
                 base = join_url(libdir, base) if libdir else base
             else:
@@ -247,26 +271,7 @@ def fn(case):
                         viols.append(("url-dangling", f"URL {u!r} does not name a copied file", {"resolved": p}))
                     elif open(p, "rb").read() != open(srcp, "rb").read():
                         viols.append(("copied-file-differs", f"{u!r} is not byte-identical to its source", {}))
-        # --- copied tree
-        if local:
-            if all_files:
-                if listing(target) != listing(src_root):
-                    viols.append(("all_files:tree-differs", "target directory is not a copy of the whole source directory",
-                                  {"target": [x if isinstance(x, str) else x[0] for x in listing(target)]}))
-            else:
-                got = [x[0] for x in listing(target) if not isinstance(x, str)]
-                if sorted(got) != sorted(set(listed)):
-                    viols.append(("copied-set", "target directory does not hold exactly the listed files "
-                                  "(stale contents must be gone)", {"observed": got, "expected": sorted(set(listed))}))
-                for rel in listed:
-                    p = os.path.join(target, rel)
-                    if os.path.isfile(p) and open(p, "rb").read() != open(os.path.join(src_root, rel), "rb").read():
-                        viols.append(("copied-file-differs", f"{rel!r} differs from its source", {}))
-        else:
-            after = [x for x in listing(tdir) if (x if isinstance(x, str) else x[0]) != "index.html"]
-            if after != before:
-                viols.append(("nonlocal-copied-something", "URL/source-less dependency changed the output directory",
-                              {"after": [a if isinstance(a, str) else a[0] for a in after]}))
+        check_tree("")
         return (local, (source_kind, all_files, stale), viols, 1)
     finally:
         shutil.rmtree(tdir, ignore_errors=True)
@@ -757,6 +762,11 @@ def plan(tier):
         dict(kind="space", name="package-layouts", space=pkglay, fn=fn_pkglayout, serial=True,
              note="package whose __init__.py is a symbolic link to a file kept elsewhere (with / without a stale "
                   "same-named file next to the link target)"),
+        dict(kind="space", name="source-subdir-with-trailing-slash", fn=fn,
+             space=Prod(Const([[FILES[0]], [FILES[13], FILES[1]], []]), Const([None, STYLE]), Const([False, True]),
+                        Const(["dir/", "package/"]), Const(["lib", None]), Const([True, False]), Const(["absent", "dir"]),
+                        Const(["document", "copy_to"]), Const([[]])),
+             note="the source sub-directory is spelled with a trailing slash (package and directory sources; nested files; all_files)"),
         dict(kind="space", name="absolute-libdir", space=abslib, fn=fn,
              note="libdir is an absolute path: URLs keep the leading slash and name the copied files"),
         dict(kind="space", name="relative-paths-and-cwd", fn=fn_cwd, serial=True,
